@@ -5,6 +5,7 @@ package main
 // requests parsed from wire bytes, and logs every distinct observed outcome.
 
 import (
+	"context"
 	"encoding/json"
 	"fmt"
 	"math/rand"
@@ -38,6 +39,12 @@ type tableCase struct {
 	Reqs     []reqSpec     `json:"reqs"`
 	Routers  []string      `json:"routers"` // empty: decided from the template forms
 	Options  bool          `json:"options"` // also probe the OPTIONS filter (C17)
+	// Fixed: the per-table build dimensions are given (replay of one table) instead of derived from its position
+	Fixed      bool `json:"fixed"`
+	WithFilter bool `json:"withFilter"`
+	Flavour    int  `json:"flavour"`
+	Switched   bool `json:"switched"`
+	Swap       bool `json:"swap"`
 }
 
 type routePlan struct {
@@ -53,6 +60,10 @@ type routePlan struct {
 	Conc       int         `json:"conc"` // > 0: additionally send every request of a table from that many goroutines at once
 	Late       bool        `json:"late"` // a route is added after a first round of requests (one spelling each) was served
 	Universe   []string    `json:"universe"`
+	DefReqCT   string      `json:"defReqCT"` // restful.DefaultRequestContentType(...) is set while the requests are served
+	Decoy      bool        `json:"decoy"`    // a decoy WebService is added first and removed before the requests are served
+	// the OPTIONS filter is asked about every path p and about p/
+	SlashOptions bool `json:"slashOptions"`
 }
 
 type hit struct {
@@ -130,8 +141,18 @@ func jsrTok(tok string) bool {
 }
 
 // withFilter: a pass-through container filter (dispatch composes a filter chain instead of calling the
-// route function directly)
+// route function directly); filterFlavour 1: a native filter, 2: a net/http middleware wrapped by
+// HttpMiddlewareHandlerToFilter that hands a derived *http.Request on (r.WithContext)
 var withFilter bool
+var filterFlavour int
+
+// switchRouterFirst: the container was first given the other router, then the wanted one
+var switchRouterFirst bool
+
+// decoyRoot != "": a WebService with this root is added before all others and removed again before any request
+var decoyRoot string
+
+type ctxKey struct{}
 
 // dynamicTables: WebServices are built with dynamic routes enabled (routes change after registration)
 var dynamicTables bool
@@ -139,6 +160,9 @@ var dynamicTables bool
 // holdBack: the last route of the first service is not registered when the container is built but
 // later, after some requests were served (lateAdders[container] registers it)
 var holdBack bool
+
+// swapLate: a placeholder route is registered in place of the held back one and replaced by it later
+var swapLate bool
 var lateAdders = map[*restful.Container]func(){}
 
 func buildContainer(t tableCase, router string, order [][2]int, cell **obsCell) (c *restful.Container, addPanic string) {
@@ -151,15 +175,34 @@ func buildContainer(t tableCase, router string, order [][2]int, cell **obsCell) 
 		}
 	}()
 	c = restful.NewContainer()
+	if switchRouterFirst {
+		if router == "jsr311" {
+			c.Router(restful.CurlyRouter{})
+		} else {
+			c.Router(restful.RouterJSR311{})
+		}
+	}
 	if router == "jsr311" {
 		c.Router(restful.RouterJSR311{})
 	} else {
 		c.Router(restful.CurlyRouter{})
 	}
-	if withFilter {
+	if withFilter && filterFlavour == 2 {
+		c.Filter(restful.HttpMiddlewareHandlerToFilter(func(next http.Handler) http.Handler {
+			return http.HandlerFunc(func(w http.ResponseWriter, r *http.Request) {
+				next.ServeHTTP(w, r.WithContext(context.WithValue(r.Context(), ctxKey{}, 1)))
+			})
+		}))
+	} else if withFilter {
 		c.Filter(func(req *restful.Request, resp *restful.Response, chain *restful.FilterChain) {
 			chain.ProcessFilter(req, resp)
 		})
+	}
+	var decoy *restful.WebService
+	if decoyRoot != "" {
+		decoy = new(restful.WebService).Path(decoyRoot)
+		decoy.Route(decoy.GET("").To(func(req *restful.Request, resp *restful.Response) {}))
+		c.Add(decoy)
 	}
 	// order: sequence of (ws index, route index) in registration order; services are added
 	// in order of first appearance
@@ -223,6 +266,19 @@ func buildContainer(t tableCase, router string, order [][2]int, cell **obsCell) 
 		}
 		if holdBack && wi == 0 && ri == len(t.Services[0].Routes)-1 && len(t.Services[0].Routes) >= 2 {
 			wsLate, rbLate := ws, rb
+			if swapLate {
+				// a placeholder stands in for the held back route: the route count does not change when it is replaced
+				ws.Route(ws.Method("GET").Path("/zz-placeholder-9").To(func(req *restful.Request, resp *restful.Response) {}))
+				lateAdders[c] = func() {
+					for _, rt := range wsLate.Routes() {
+						if strings.HasSuffix(rt.Path, "/zz-placeholder-9") {
+							wsLate.RemoveRoute(rt.Path, "GET")
+						}
+					}
+					wsLate.Route(rbLate)
+				}
+				continue
+			}
 			lateAdders[c] = func() { wsLate.Route(rbLate) }
 			continue
 		}
@@ -231,7 +287,34 @@ func buildContainer(t tableCase, router string, order [][2]int, cell **obsCell) 
 	for _, wi := range seq {
 		c.Add(added[wi])
 	}
+	if decoy != nil {
+		c.Remove(decoy)
+	}
 	return c, ""
+}
+
+// serviceOrder: the WebService indices (1-based) of a registration order, in order of first appearance
+func serviceOrder(order [][2]int) []int {
+	seq := []int{}
+	seen := map[int]bool{}
+	for _, wr := range order {
+		if !seen[wr[0]] {
+			seen[wr[0]] = true
+			seq = append(seq, wr[0]+1)
+		}
+	}
+	return seq
+}
+
+// decoyFor: a root path that shares its fixed ServeMux prefix with the table's first literal-rooted service
+func decoyFor(t tableCase) string {
+	for _, s := range t.Services {
+		root := strings.TrimRight(s.Root, "/")
+		if root != "" && !strings.Contains(root, "{") {
+			return root + "/{zzdecoy}/zzdecoy"
+		}
+	}
+	return ""
 }
 
 // registration orders: perm 0 is the table's own order; others shuffle services and the
@@ -344,7 +427,7 @@ func observe(c *restful.Container, entry string, hr *http.Request, cell **obsCel
 	}
 	o.K, o.St = "err", rec.Code
 	if rec.Code == 405 {
-		o.Allow = splitList(rec.Header().Get("Allow"))
+		o.Allow = splitList(wireHeader(rec).Get("Allow"))
 	}
 	if entry == "S" && (rec.Code == 301 || rec.Code == 307 || rec.Code == 308) {
 		o.K = "redirect"
@@ -387,7 +470,16 @@ func runRoute(planPath, outPath string, seed int64) {
 			}
 		}
 		withFilter = ti%2 == 1
-		tw.emit(map[string]interface{}{"e": "table", "tid": ti + 1, "services": t.Services, "routers": routers, "withFilter": withFilter})
+		filterFlavour = 1 + (ti/2)%2
+		switchRouterFirst = (ti/4)%2 == 1
+		swapDim := ti%2 == 0
+		if t.Fixed {
+			withFilter, filterFlavour, switchRouterFirst, swapDim = t.WithFilter, t.Flavour, t.Switched, t.Swap
+		}
+		decoyRoot = ""
+		if p.Decoy {
+			decoyRoot = decoyFor(t)
+		}
 		var cell *obsCell
 		variants := []builtVariant{}
 		orders := [][][2]int{registrationOrder(t, r, true)}
@@ -397,8 +489,24 @@ func runRoute(planPath, outPath string, seed int64) {
 		for k := 1; k < p.Perms; k++ {
 			orders = append(orders, registrationOrder(t, r, false))
 		}
+		svcOrders := [][]int{}
+		for _, o := range orders {
+			svcOrders = append(svcOrders, serviceOrder(o))
+		}
+		tw.emit(map[string]interface{}{"e": "table", "tid": ti + 1, "services": t.Services, "routers": routers, "withFilter": withFilter,
+			"flavour": filterFlavour, "switched": switchRouterFirst, "swap": swapDim, "decoy": decoyRoot, "orders": svcOrders})
+		// every template of the table was compiled once before while the trailing-slash switch had the other
+		// value (the switch is a run-time package variable; nothing may be remembered across it)
+		restful.TrimRightSlashEnabled = false
+		if pc, ap := buildContainer(t, routers[0], orders[0], &cell); ap == "" && len(t.Reqs) > 0 {
+			if hr, err := t.Reqs[0].httpRequest(false); err == nil {
+				observe(pc, "D", hr, &cell)
+			}
+		}
+		restful.TrimRightSlashEnabled = true
 		addPanic := ""
 		holdBack, dynamicTables = p.Late, p.Late
+		swapLate = p.Late && swapDim
 		for _, router := range routers {
 			for pi, ord := range orders {
 				c, ap := buildContainer(t, router, ord, &cell)
@@ -410,6 +518,7 @@ func runRoute(planPath, outPath string, seed int64) {
 			}
 		}
 		holdBack, dynamicTables = false, false
+		restful.DefaultRequestContentType(p.DefReqCT)
 		if p.Late {
 			// one spelling of every request (alternating) is served by the incomplete table, then the held
 			// back route is registered; everything recorded below is answered by the complete table
@@ -545,6 +654,9 @@ func runRoute(planPath, outPath string, seed int64) {
 		}
 		if t.Options || p.OptionsAll {
 			emitOptionsProbes(tw, ti+1, t, routers, p.Universe)
+		}
+		if p.SlashOptions {
+			emitSlashOptionProbes(tw, ti+1, t, routers)
 		}
 	}
 }
